@@ -157,3 +157,36 @@ Definition normalise_coefficients (cs : list Qc) : list Qc := let s := sumQ cs i
 (* derivative of the two branches of a hat, as constant polynomials (specification side) *)
 Definition hat_left_slope (t : hatdom) : list Qc := [ 1 / (h_p t - h_lo t) ].
 Definition hat_right_slope (t : hatdom) : list Qc := [ - (1 / (h_hi t - h_p t)) ].
+
+(* ------------------------------------------------------------------ verified checker: positive semi-definite *)
+(* exact symmetric elimination on a rational matrix given as rows (the Python oracle's is_psd, as a Coq function):
+   first row p :: r, first column must equal the first row; p < 0 rejects; p = 0 needs r = 0; p > 0 continues with the
+   Schur complement G' - r r^T / p.  Soundness: Proofs/RegressPSD.v *)
+Definition mcol0 (G : list (list Qc)) : list Qc := map (fun row => hd 0 row) G.
+Definition mtails (G : list (list Qc)) : list (list Qc) := map (fun row => tl row) G.
+Definition schur (p : Qc) (r : list Qc) (G : list (list Qc)) : list (list Qc) :=
+  map2 (fun ri row => map2 (fun rj x => x - ri * rj / p) r row) r G.
+Fixpoint psd_rec (n : nat) (G : list (list Qc)) : bool :=
+  match n with
+  | O => true
+  | S k => match G with
+           | (p :: r) :: rest =>
+               forallb2 Qc_eqb (mcol0 rest) r &&
+               (if Qc_ltb p 0 then false
+                else if Qc_eqb p 0 then forallb (fun x => Qc_eqb x 0) r && psd_rec k (mtails rest)
+                else psd_rec k (schur p r (mtails rest)))
+           | _ => false
+           end
+  end.
+Definition psd_check (G : list (list Qc)) : bool :=
+  let n := length G in forallb (fun row => (length row =? n)%nat) G && psd_rec n G.
+
+(* residual checker with a cancellation-aware scale: the solve works on A and y, so its backward error is relative to
+   |A^T| |y| / m, not to |A^T y| / m (which may cancel to 0 although y <> 0: duplicated samples with opposite targets).
+   floor = max_i (|A|^T |y|)_i / m ; hat values are non-negative, so |A| = A. *)
+Definition residual_floor (A : list (list Qc)) (y : list Qc) : Qc :=
+  maxQ (right_vector (map (map Qc_abs) A) (map Qc_abs y)).
+Definition residual_ok_floor (L : list (list Qc)) (r alpha : list Qc) (tol floor : Qc) : bool :=
+  (length L =? length r)%nat &&
+  let bound := tol * Qc_max (residual_scale L r alpha) floor in
+  forallb2 (fun row ri => Qc_leb (Qc_abs (dotQ row alpha - ri)) bound) L r.
